@@ -27,12 +27,13 @@ ASSUMPTIONS = [
     "connection that the server closes at the same time is the inherent HTTP/1.1 keep-alive race and is not counted",
     "for the threaded worker one more accept may happen in the main-loop iteration that is in progress when a handler thread "
     "reaches the limit; what happens to that connection is judged (and separately keyed)",
-    "the real GeventWorker.run() executes on a shim of the gevent primitives (its acceptor keeps accepting until the 1 s heartbeat loop notices the limit); the eventlet run() loop is NOT executed",
+    "the real GeventWorker.run() executes on a shim of the gevent primitives (its acceptor keeps accepting until the 1 s heartbeat loop notices the limit)",
+    "the real EventletWorker.run(), _eventlet_serve and _eventlet_stop execute on a shim of the eventlet primitives they use (simkit/eventlet_shim.py: spawn/GreenThread kill-wait-link, GreenPool, GreenSocket accept, sleep, Timeout, StopServe); real eventlet hub scheduling order is not modelled beyond 'one green thread runs until it blocks'",
 ]
 COMPONENTS = {"real": ["Worker.__init__ (limit + jitter)", "SyncWorker.run/handle_request", "ThreadWorker.run/handle_request/finish_request",
                        "Arbiter.reap_workers/manage_workers/spawn_worker (family full)"],
               "stub": ["kernel", "selector/executor/lock", "clients", "parent (family worker)"],
-              "not_covered": ["base_async limit check inside real gevent/eventlet loops"]}
+              "not_covered": ["real gevent/eventlet hubs"]}
 
 
 def make_conn_case(index, rng, tier):
@@ -109,14 +110,14 @@ def make_case(index, rng, tier):
     if index % 4 == 3:
         return make_conn_case(index, rng, tier)
     fam = "full" if index % 3 == 2 else "worker"
-    kind = rng.choice(["sync", "gthread", "gevent"])
+    kind = rng.choice(["sync", "gthread", "gevent", "eventlet"])
     mr = rng.choice([0, 1, 2, 2, 3, 4])
     clients = []
     t = 0.2
     n = rng.randrange(2, 9)
     concurrent = rng.randrange(2) == 0
     for i in range(n):
-        nreq = rng.choice([1, 1, 1, 2, 3]) if kind in ("gthread", "gevent") else 1
+        nreq = rng.choice([1, 1, 1, 2, 3]) if kind in ("gthread", "gevent", "eventlet") else 1
         paths = [rng.choice(["/a", "/a", "/sleep/0.3", "/sleep/1.0", "/b"]) for _ in range(nreq)]
         clients.append({"t": round(t, 2), "paths": paths, "gap": round(rng.uniform(0.05, 0.6), 2)})
         t += rng.uniform(0.0, 0.15) if concurrent else rng.uniform(0.3, 1.2)
@@ -195,7 +196,7 @@ def run_worker(case, choices):
                 res.violate("C18:worker:%s:recycled-without-limit" % kind, "max_requests=0 but the worker exited (status %r) after %d requests; %s"
                             % (p.status, handled, ctx()))
         elif state["limit_at"] is not None:
-            late_ok = [a for a in state["accepts_after"] if kind == "gevent" and a[0] <= state["limit_at"] + 1.0 + 1e-6]
+            late_ok = [a for a in state["accepts_after"] if kind in ("gevent", "eventlet") and a[0] <= state["limit_at"] + 1.0 + 1e-6]
             if handled > limit + (state["open_at_limit"] or 0) + len(late_ok):
                 res.violate("C18:worker:%s:handled-too-many" % kind, "the worker handled %d requests; limit %d, %d connections were open when the "
                             "limit was reached; %s" % (handled, limit, state["open_at_limit"], ctx()))
@@ -203,8 +204,8 @@ def run_worker(case, choices):
             if kind == "sync" and late:
                 res.violate("C18:worker:sync:accept-after-limit", "the sync worker accepted %r after reaching its limit at t=%.2f; %s"
                             % (late[:2], state["limit_at"], ctx()))
-            if kind == "gevent" and len(late) > len(late_ok):
-                res.violate("C18:worker:gevent:accept-after-limit", "the gevent worker accepted connections more than one heartbeat period (1 s) "
+            if kind in ("gevent", "eventlet") and len(late) > len(late_ok):
+                res.violate("C18:worker:%s:accept-after-limit" % kind, "the async worker accepted connections more than one heartbeat period (1 s) "
                             "after reaching its limit at t=%.2f: %r; %s" % (state["limit_at"], late[:3], ctx()))
             if kind == "gthread" and len(late) > len(w.addrs):
                 res.violate("C18:worker:gthread:accept-after-limit", "the threaded worker accepted %d connections after reaching its limit "
